@@ -628,7 +628,7 @@ AST_ATTRS = ATTRS + ["script('sh')", "script(x'sh', \"-c\")", "group(x'g3')", "g
 AST_LITS = ["'s'", '"d"', "x's'", "x \"d\"", "%st%s" % (T3, T3), "%su%s" % (D3, D3), "'a b'", "'中'"]
 PARSER_ERRORS = {"UnexpectedToken", "ExpectedKeyword", "UnknownSetting", "UnknownAttribute", "AttributeArgumentCountMismatch", "DuplicateAttribute",
                  "ExtraneousAttributes", "InvalidAttribute", "ShebangAndScriptAttribute", "NoCdAndWorkingDirectoryAttribute",
-                 "ExitMessageAndNoExitMessageAttribute", "ParameterFollowsVariadicParameter"}
+                 "ExitMessageAndNoExitMessageAttribute", "ParameterFollowsVariadicParameter", "UnknownFunction", "FunctionArgumentCountMismatch"}
 
 
 def gen_ast_file(rng, idx):
@@ -735,6 +735,10 @@ def gen_ast_file(rng, idx):
                 if k > 0 and rng.random() < 0.15:
                     out.append("")
                 out.append(ind + rng.choice(["echo a", "#!/bin/sh", "# c", "x {{v}} y", "{{'s'}}", "@-ls", "a \\", "  deeper"]))
+        if bad and rng.random() < 0.12:
+            # Thunk::resolve runs in the parser: unknown functions and wrong argument counts are parse errors
+            out.append("wf%d := %s" % (len(out), rng.choice(["nosuch('x')", "trim()", "trim('a', 'b')", "arch('x')", "replace('a', 'b')", "join('a')",
+                                                               "env()", "env('a', 'b', 'c')", "justfile_dir()", "justfile_dir('x')", "home_dir_native()"])))
         if rng.random() < 0.4:
             out.append("")
     text = "v := 'q'\nv0 := 'a'\nv1 := 'b'\nv2 := 'c'\nelse := 'e'\nx := 'x'\nassert_ := 'z'\niff := 'i'\n" + "\n".join(out) + "\n"
